@@ -16,19 +16,19 @@ using WorldBuilder::Point;
 namespace
 {
   // ---------------- line features ----------------
-  const double DIPS[] = {30, 1, 90, 150, 179, 60};
+  const double DIPS[] = {30, 1, 90, 150, 179, 60, 3};
   const double MIND[] = {0, 5e4, 2e5};
   const double LEN[] = {3e5, 5e4};
   const double THICK[] = {1e5, 1e3};
   // coordinate settings: 0 cartesian; 1..3 spherical at latitude 0, 60, 85; 4 spherical trench across the dateline;
   // 5 spherical trench along a meridian from latitude 40 to 70; 6 along a meridian from latitude 0 to 85
   const int NSET = 7, NSHAPE = 4;
-  const std::vector<uint64_t> LINE_RADIX = {2 /*slab,fault*/, NSET, NSHAPE, 6, 3, 2, 2, 2 /*thickness pair variant*/, 2 /*first segment is an arc from the dip to 180 - dip (through the vertical)*/};
+  const std::vector<uint64_t> LINE_RADIX = {2 /*slab,fault*/, NSET, NSHAPE, 7, 3, 2, 2, 2 /*thickness pair variant*/, 2 /*first segment is an arc from the dip to 180 - dip (through the vertical)*/, 2 /*second segment keeps the dip of the first (one plane down to the tip)*/};
 
-  struct Line { bool fault; int setting, shape; double dip, mind, len, thick; bool thick_grows; bool arc_through_vertical; };
+  struct Line { bool fault; int setting, shape; double dip, mind, len, thick; bool thick_grows; bool arc_through_vertical; bool one_plane; };
   Line decode_line(const std::vector<unsigned> &d)
   {
-    return {d[0] == 1, static_cast<int>(d[1]), static_cast<int>(d[2]), DIPS[d[3]], MIND[d[4]], LEN[d[5]], THICK[d[6]], d[7] == 1, d[8] == 1};
+    return {d[0] == 1, static_cast<int>(d[1]), static_cast<int>(d[2]), DIPS[d[3]], MIND[d[4]], LEN[d[5]], THICK[d[6]], d[7] == 1, d[8] == 1, d[9] == 1};
   }
   // trench shapes in local units (u along, v across), roughly 3 units long
   std::vector<P2> shape_pts(int shape)
@@ -66,7 +66,7 @@ namespace
     const std::string thick = l.thick_grows ? "[" + num(l.thick) + "," + num(2*l.thick) + "]" : "[" + num(l.thick) + "]";
     std::string feat = "{\"model\":\"" + std::string(l.fault ? "fault" : "subducting plate") + "\",\"name\":\"L\",\"coordinates\":" + pts(c) + ",\"dip point\":" + pt(dip_point) +
                        ",\"min depth\":" + num(l.mind) + ",\"segments\":[{\"length\":" + num(0.6*l.len) + ",\"thickness\":" + thick + ",\"angle\":[" + num(l.dip) + (l.arc_through_vertical ? "," + num(180 - l.dip) : std::string()) + "]},"
-                       "{\"length\":" + num(0.4*l.len) + ",\"thickness\":" + (l.thick_grows ? "[" + num(2*l.thick) + "," + num(4*l.thick) + "]" : thick) + ",\"angle\":[" + num(l.dip) + (l.thick_grows ? std::string() : "," + num(std::min(179.0, l.dip + 15))) + "]}]";
+                       "{\"length\":" + num(0.4*l.len) + ",\"thickness\":" + (l.thick_grows ? "[" + num(2*l.thick) + "," + num(4*l.thick) + "]" : thick) + ",\"angle\":[" + num(l.dip) + (l.thick_grows || l.one_plane ? std::string() : "," + num(std::min(179.0, l.dip + 15))) + "]}]";
     if (l.fault) feat += ",\"temperature models\":[{\"model\":\"linear\",\"max distance fault center\":" + num(3*l.thick) + ",\"center temperature\":900,\"side temperature\":1100}]";
     else feat += ",\"temperature models\":[{\"model\":\"linear\",\"max distance slab top\":" + num(3*l.thick) + ",\"top temperature\":300,\"bottom temperature\":1300}]";
     feat += ",\"composition models\":[{\"model\":\"uniform\",\"compositions\":[0],\"fractions\":[0.625]}]}";
@@ -103,9 +103,9 @@ namespace
     std::vector<double> depths = {0.0, 0.5*l.mind, l.mind, l.mind + 1e3, l.mind + 0.1*l.len, l.mind + 0.3*l.len, l.mind + 0.6*l.len, l.mind + l.len, deepest, 1.05*deepest + 1e3, l.mind + 0.45*l.len + 0.5*l.thick, l.mind + l.len + 0.5*tmax, l.mind + 0.7*tmax};
     bool any_in = false;
     const std::string ldesc = JObj().str("feature", l.fault ? "fault" : "subducting plate").integer("coordinate_setting", l.setting).integer("trench_shape", l.shape).num("dip", l.dip)
-                              .num("min_depth", l.mind).num("length", l.len).num("thickness", l.thick).boolean("thickness_grows_down_dip", l.thick_grows).boolean("first_segment_is_an_arc_through_the_vertical", l.arc_through_vertical).done();
+                              .num("min_depth", l.mind).num("length", l.len).num("thickness", l.thick).boolean("thickness_grows_down_dip", l.thick_grows).boolean("first_segment_is_an_arc_through_the_vertical", l.arc_through_vertical).boolean("second_segment_keeps_the_dip", l.one_plane).done();
     // extra probes (natural x, y, depth; or a raw cartesian point with its depth): see below
-    struct Extra { double x, y, depth; bool raw; P3 p; };
+    struct Extra { double x, y, depth; };
     std::vector<Extra> extras;
     // (a) the down-dip end of the body below every point of the actual trench curve (it overshoots the straight connections of the
     //     coordinates at bends): the last few per cent of the length, where a culling box that is a little too small bites first
@@ -127,48 +127,62 @@ namespace
                 if ((dp[0]-c0[0])*nx + (dp[1]-c0[1])*ny < 0) { nx = -nx; ny = -ny; }
                 for (double frac : {0.5, 0.9, 0.97, 0.995})
                   {
-                    // first segment only (constant dip): a point on the centre plane of the fault / just below the top of the slab
-                    const double along = frac * 0.6 * l.len, h = along * std::cos(dr), dep = l.mind + along * std::sin(dr) + (l.fault ? 0.0 : 0.3 * l.thick / std::max(0.2, std::fabs(std::cos(dr))));
-                    extras.push_back({c0[0] + nx*h, c0[1] + ny*h, dep, false, {{0,0,0}}});
+                    // the part with constant dip (the first segment, or the whole length when the second segment keeps the dip): a point on the centre plane of the fault / just below the top of the slab
+                    const double along = frac * (l.thick_grows || l.one_plane ? 1.0 : 0.6) * l.len, h = along * std::cos(dr), dep = l.mind + along * std::sin(dr) + (l.fault ? 0.0 : 0.3 * l.thick / std::max(0.2, std::fabs(std::cos(dr))));
+                    extras.push_back({c0[0] + nx*h, c0[1] + ny*h, dep});
                   }
               }
       }
-    // (b) spherical worlds: cartesian columns (same x and y, z varying fastest), as a cartesian mesh generator visits them
-    if (f.sph)
-      {
-        const P2 c = f.map(0, -1.0);
-        const P3 centre = query_point(true, c[0], c[1], 0);
-        for (int ix = -2; ix <= 2; ++ix) for (int iy = -2; iy <= 2; ++iy) for (int iz = 0; iz <= 8; ++iz)
-              {
-                const P3 q = {{centre[0] + ix*0.6e5, centre[1] + iy*0.6e5, centre[2] * (1.0 - iz*0.012)}};
-                const double rr = std::sqrt(q[0]*q[0] + q[1]*q[1] + q[2]*q[2]);
-                extras.push_back({0, 0, R_EARTH - rr, true, q});
-              }
-      }
-    for (int iu = -12; iu <= 12 + static_cast<int>(extras.size()); ++iu) for (int iv = -12; iv <= 12; ++iv)
+    // All points are first asked of the world with shortcuts, one after the other, and then of the world without them: a shortcut that
+    // remembers something about the previous query of the same feature is then exercised the way a mesh generator exercises it.
+    struct Q { double x, y, depth; P3 p; };
+    auto evaluate = [&](const std::vector<Q> &qs, std::vector<Q> *members)
+    {
+      std::vector<std::vector<double>> A;
+      A.reserve(qs.size());
+      for (auto &q : qs) A.push_back(normal->properties(q.p, q.depth, req));
+      for (size_t i = 0; i < qs.size(); ++i)
         {
-          const bool is_extra = iu > 12;
-          if (is_extra && iv != -12) continue;
-          const P2 xy = is_extra ? P2{{extras[static_cast<size_t>(iu - 13)].x, extras[static_cast<size_t>(iu - 13)].y}} : f.map(iu*step, iv*step);
-          const double x = xy[0], y = xy[1];
-          if (f.sph && std::fabs(y) > 89.5) continue;
-          const std::vector<double> one_depth = is_extra ? std::vector<double>{extras[static_cast<size_t>(iu - 13)].depth} : std::vector<double>();
-          for (double depth : (is_extra ? one_depth : depths))
+          const Q &q = qs[i];
+          const std::vector<double> &a = A[i];
+          const std::vector<double> b = unculled->properties(q.p, q.depth, req);
+          ctx.eval(); ctx.count(c_cmp);
+          if (b[2] != -1) { any_in = true; ctx.count(c_in); if (members) members->push_back(q); }
+          if (!biteq(a, b))
             {
-              const P3 p = is_extra && extras[static_cast<size_t>(iu - 13)].raw ? extras[static_cast<size_t>(iu - 13)].p : query_point(f.sph, x, y, depth);
-              const std::vector<double> a = normal->properties(p, depth, req), b = unculled->properties(p, depth, req);
-              ctx.eval(); ctx.count(c_cmp);
-              if (b[2] != -1) { any_in = true; ctx.count(c_in); }
-              if (!biteq(a, b))
-                {
-                  if (a[2] == -1 && b[2] != -1) ctx.count(c_culled_in);
-                  const char *which = (a[2] == -1 && b[2] != -1) ? "member-point-discarded" : (a[2] != -1 && b[2] == -1) ? "point-added-by-shortcut" : "values-differ";
-                  const char *why = depth > l.len + tmax && l.mind > 0 ? "/deeper-than-length-plus-thickness-with-min-depth" : "";
-                  ctx.violation(std::string("C07/line/") + (l.fault ? "fault/" : "subducting plate/") + (f.sph ? "spherical/" : "cartesian/") + which + why,
-                                JObj().raw("case", ldesc).raw("point_natural", jarr(std::vector<double>{x, y})).num("depth", depth).raw("with_shortcuts", jarr(a)).raw("without_shortcuts", jarr(b)).str("world", text).done());
-                }
+              if (a[2] == -1 && b[2] != -1) ctx.count(c_culled_in);
+              const char *which = (a[2] == -1 && b[2] != -1) ? "member-point-discarded" : (a[2] != -1 && b[2] == -1) ? "point-added-by-shortcut" : "values-differ";
+              const char *why = q.depth > l.len + tmax && l.mind > 0 ? "/deeper-than-length-plus-thickness-with-min-depth" : "";
+              ctx.violation(std::string("C07/line/") + (l.fault ? "fault/" : "subducting plate/") + (f.sph ? "spherical/" : "cartesian/") + which + why,
+                            JObj().raw("case", ldesc).raw("point_natural", jarr(std::vector<double>{q.x, q.y})).raw("point_cartesian", jarr(q.p)).num("depth", q.depth).raw("with_shortcuts", jarr(a)).raw("without_shortcuts", jarr(b)).str("world", text).done());
             }
         }
+    };
+    std::vector<Q> qs, members;
+    for (int iu = -12; iu <= 12; ++iu) for (int iv = -12; iv <= 12; ++iv)
+        {
+          const P2 xy = f.map(iu*step, iv*step);
+          if (f.sph && std::fabs(xy[1]) > 89.5) continue;
+          for (double depth : depths) qs.push_back({xy[0], xy[1], depth, query_point(f.sph, xy[0], xy[1], depth)});
+        }
+    for (auto &e : extras) qs.push_back({e.x, e.y, e.depth, query_point(f.sph, e.x, e.y, e.depth)});
+    evaluate(qs, &members);
+    // (b) spherical worlds: cartesian columns (same x and y, z varying), as a cartesian mesh generator visits them: each column runs through a
+    //     member point and starts 1000 km away from it along z, far outside the culling box (whose extent is in longitude and latitude)
+    if (f.sph && !members.empty())
+      {
+        std::vector<Q> cols;
+        for (size_t pick : {size_t(0), members.size()/2, members.size()-1})
+          for (int sgn : {-1, 1}) for (int k = 10; k >= 0; --k)
+              {
+                const Q &t = members[pick];
+                const P3 q = {{t.p[0], t.p[1], t.p[2] + sgn*k*1e5}};
+                const double rr = std::sqrt(q[0]*q[0] + q[1]*q[1] + q[2]*q[2]);
+                if (rr > R_EARTH) continue;
+                cols.push_back({std::atan2(q[1], q[0])*180/PI, std::asin(q[2]/rr)*180/PI, k == 0 ? t.depth : R_EARTH - rr, k == 0 ? t.p : q});
+              }
+        evaluate(cols, nullptr);
+      }
     if (any_in) ctx.nontrivial();
     if (idx % 97 == 5) ctx.sample(ldesc);
   }
@@ -263,7 +277,7 @@ int main(int argc, char **argv)
   Spec spec;
   spec.property = "C07";
   spec.level = "exploration";
-  spec.rule = "line suite: slabs and faults from the product {slab,fault} x 7 coordinate settings (cartesian; spherical at latitude 0, 60, 85; trench across the dateline; meridional trenches spanning latitude 40..70 and 0..85) x 4 trench shapes x 6 dips x "
+  spec.rule = "line suite: slabs and faults from the product {slab,fault} x 7 coordinate settings (cartesian; spherical at latitude 0, 60, 85; trench across the dateline; meridional trenches spanning latitude 40..70 and 0..85) x 4 trench shapes x 7 dips x "
               "3 min depths x 2 lengths x 2 thicknesses x {constant, growing thickness} (quick: all tuples within 3 deviations of the default; thorough: full product), each built twice in one process - "
               "culling bounds as computed and made infinite through the GWB_VERIF switch - and compared bit-for-bit on a 25x25x13 lattice reaching 3(length+thickness) around the trench and below the "
               "deepest possible point; surface suite: every value-point layout (3 base polygons x every subset of <= 2|3 of 7 extra points x 4 coordinate flavours) - local_value against a full "
@@ -283,9 +297,17 @@ int main(int argc, char **argv)
           const Radix rx(LINE_RADIX);
           for (uint64_t i = 0; i < rx.total(); ++i) tuples->push_back(rx.decode(i));
         }
-      else tuples = std::make_shared<std::vector<std::vector<unsigned>>>(deviations(LINE_RADIX, 3));
+      else
+        {
+          tuples = std::make_shared<std::vector<std::vector<unsigned>>>(deviations(LINE_RADIX, 3));
+          // shallow, thin bodies in one plane under bent traces (5 deviations from the default, hence listed): where the hanging tip comes closest to the edge of a culling box
+          for (unsigned ft : {0u, 1u}) for (unsigned sh : {1u, 2u, 3u}) for (unsigned dip : {1u, 6u}) for (unsigned ln : {0u, 1u})
+                  tuples->push_back({ft, 0, sh, dip, 0, ln, 1, 0, 0, 1});
+        }
+      // a growing thickness already implies a second segment that keeps the dip
+      tuples->erase(std::remove_if(tuples->begin(), tuples->end(), [](const std::vector<unsigned> &d) { return d[7] == 1 && d[9] == 1; }), tuples->end());
       Suite a; a.name = "line"; a.n = tuples->size(); a.run = [tuples](uint64_t i, Ctx &c) { run_line(tuples, i, c); };
-      a.bound = std::string(th ? "full product" : "all tuples within 3 deviations of the default") + " over radices (feature 2, coordinate setting 7, trench shape 4, dip 6, min depth 3, length 2, thickness 2, thickness growth 2): " + std::to_string(tuples->size()) + " twin pairs";
+      a.bound = std::string(th ? "full product" : "all tuples within 3 deviations of the default") + " over radices (feature 2, coordinate setting 7, trench shape 4, dip 7, min depth 3, length 2, thickness 2, thickness growth 2, arc through the vertical 2, one plane 2; quick adds 24 shallow thin one-plane bodies under bent traces): " + std::to_string(tuples->size()) + " twin pairs";
       s.push_back(a);
     }
     {
